@@ -400,6 +400,13 @@ def check(run: Run) -> None:
     sub5 = Run("C05", run.tier, run.repo)
     writeback_conservation(sub5, model, "C05.R3")
     run.floor("adopted write-back obligations", run.adopt(sub5, ("C05.R3",), "C07.R6"), 6)
+    # ... and WHERE on that line: directly behind the item prefix (kind, a real priority), in front of every word of the body -- a ZID written behind a body word that merely
+    # looks like a priority (`P2P`, `P10`) is not the note's first identifier when the page is compiled again, so the note is not recognised as its owner (C05.R2, adopted)
+    from ..indexing import zid_assignment_eval
+
+    sub6 = Run("C05", run.tier, run.repo)
+    zid_assignment_eval(sub6, model, "C05.R2")
+    run.floor("adopted ZID-position obligations", run.adopt(sub6, ("C05.R2",), "C07.R6"), 20)
     # ------------------------------------------------------------- R5
     enter_id = model.func("zorg.service.compiler._file_compiler.ZorgFileCompiler.enterId")
     uses = [c for c, t in model.calls_in(enter_id) if t == F_ISZID]
